@@ -35,5 +35,9 @@ print("| seeded change | property | what it changes | needs | suite with patch |
 print("|---|---|---|---|---|---|")
 for mf in sorted(glob.glob(os.path.join(V, "seeded", "*", "meta.json"))):
     m = json.load(open(mf))
-    det = ", ".join(f"{k} ({'; '.join(v['violations'][:2])})" for k, v in m.get("checks", {}).items() if v["exit"] == 1) or "MISSED"
+    det = ", ".join(f"{k} ({'; '.join(v['violations'][:2])})" for k, v in m.get("checks", {}).items() if v["exit"] == 1)
+    if not det:
+        und = [k for k, v in m.get("checks", {}).items() if v["exit"] in (2, 3)]
+        det = (f"not decided: {', '.join(und)} exits 2 (the change is outside the contract's reach - no pass, no VIOLATION)"
+               + (": " + m["undecided_reason"] if m.get("undecided_reason") else "")) if und else "MISSED (check passes)"
     print(f"| {m['id']} | {m['property']} | {m.get('change', '')} | {m.get('needs_to_manifest', '')} | {m.get('suite_with_patch', '')} | {det} |")
